@@ -283,6 +283,51 @@ def run(ctx):
             if (err_ == "err=1") != raised_ or got != wantc:
                 diff_ = sorted(set(got.items()) ^ set(wantc.items()))
                 ctx.broke("correspondence:directory", "%s: after Trajectory.save the directory differs from the model in %s (refused: impl %s, model %s)" % (desc_, diff_[:4], raised_, err_))
+    # ---- a .dtr writer opened under a name that is converted on the way (a Path; an inline str): the directory is only created at the first
+    # write, from the name the writer kept — it must be the one that was opened, and another trajectory of the directory must stay as it is.
+    # In a child process, working in its own scratch directory: the unrepaired writer clears and writes whatever path it finds in freed memory.
+    import subprocess, sys, textwrap, tempfile, shutil, json
+    work = tempfile.mkdtemp(prefix="dtrname", dir=ctx.scratch)
+    code = textwrap.dedent("""
+        import sys, os, json, pathlib
+        sys.path.insert(0, %r)
+        import mdv_boot  # noqa: F401
+        import numpy as np, mdtraj as md
+        tmp = pathlib.Path(%r); os.chdir(tmp)
+        xyz = np.random.RandomState(0).rand(1, 5, 3).astype(np.float32)
+        kw = dict(cell_lengths=np.ones((1, 3)) * 30, cell_angles=np.ones((1, 3)) * 90.0)
+        out = {}
+        for how in ("path", "inline-str", "save-path"):
+            old = str(tmp / ("old_%%s.dtr" %% how[:4]))
+            with md.open(old, "w") as f:
+                f.write(xyz, times=np.array([5.0]), **kw)
+            new = tmp / ("new_%%s.dtr" %% how[:4])
+            if how == "save-path":
+                t = md.Trajectory(xyz / 10, None, time=[77.0], unitcell_lengths=[[3, 3, 3]], unitcell_angles=[[90, 90, 90]])
+                t.save_dtr(new, force_overwrite=False)
+            else:
+                f = md.open(new, "w", force_overwrite=False) if how == "path" else md.open(str(tmp / ("new_%%s.dtr" %% how[:4])), "w", force_overwrite=False)
+                other = str(tmp / ("old_%%s.dtr" %% how[:4]))
+                f.write(xyz + 1, times=np.array([77.0]), **kw); f.close()
+            out[how] = [new.exists(), [float(x) for x in md.open(old).get_times()] if os.path.isdir(old) else None]
+            print("RESULT " + json.dumps(out)); sys.stdout.flush()
+    """) % (os.path.dirname(os.path.dirname(os.path.abspath(__file__))), work)
+    ctx.case(None, ("dtr-name",)); ctx.count(".dtr writers opened under a converted name (child process)", 3)
+    try:
+        pr = subprocess.run([sys.executable, "-c", code], capture_output=True, text=True, timeout=300, cwd=work)
+        lines = [l for l in pr.stdout.splitlines() if l.startswith("RESULT ")]
+        got = json.loads(lines[-1][7:]) if lines else {}
+        for how in ("path", "inline-str", "save-path"):
+            r_ = got.get(how)
+            if r_ is None:
+                viol("dtr|converted-name|fails", "a .dtr writer opened with force_overwrite=False under a new name given as %s: the first write fails (%s)" % (how, (pr.stderr.strip().splitlines() or ["no output"])[-1][:120]), dict(how=how))
+                break
+            if not r_[0] or r_[1] != [5.0]:
+                viol("dtr|converted-name|other-directory", "a .dtr writer opened with force_overwrite=False under a new name given as %s: after write and close the new directory %s and the existing trajectory next to it %s" % (
+                    how, "exists" if r_[0] else "does not exist", "is unchanged" if r_[1] == [5.0] else "was replaced (its frame times are now %s)" % r_[1]), dict(how=how))
+    except subprocess.TimeoutExpired:
+        ctx.broke("harness:dtr-name-child", "the child process did not finish in 300 s")
+    shutil.rmtree(work, ignore_errors=True)
     for key, (what, rp) in seen.items():
         ctx.violation(key, what, rp)
 
